@@ -1201,7 +1201,10 @@ func PossibleFragmentSpreadsRule(context *ValidationContext) *ValidationRuleInst
 						fragType := context.Type()
 						parentType, _ := context.ParentType().(Type)
 
-						if fragType != nil && parentType != nil && !doTypesOverlap(context.Schema(), fragType, parentType) {
+						// an inline fragment without a type condition applies to
+						// whatever encloses it (context.Type() is then the enclosing
+						// field's possibly wrapped type, not a fragment type)
+						if node.TypeCondition != nil && fragType != nil && parentType != nil && !doTypesOverlap(context.Schema(), fragType, parentType) {
 							reportError(
 								context,
 								fmt.Sprintf(`Fragment cannot be spread here as objects of `+
